@@ -603,6 +603,11 @@ def minimize_lbfgsb(
                 elif is_f0_target_reached(f0 / sf.scaling_factor, _ftarget, istate):
                     break  # the while loop
 
+                # The stored gradients may have been rewritten: the matrices must be
+                # rebuilt from them even if the newest pair is rejected below
+                if len(X) == 1:
+                    mats = LBFGSB_MATRICES(n)
+
             mats = update_lbfgs_matrices(
                 x.copy(),  # copy otherwise x might be changed in X when updated
                 grad,
@@ -610,7 +615,7 @@ def minimize_lbfgsb(
                 G,
                 maxcor,
                 mats,
-                is_force_update=False,
+                is_force_update=update_fun_def is not None and len(X) > 1,
                 eps=eps_SY,
                 is_check_factorization=is_check_factorization,
             )
